@@ -2541,7 +2541,8 @@ def r10(ctx):
             d = kw(fd.call, "default")
             if not (isinstance(d, ast.Constant) and d.value is None):
                 continue        # a required field is always in the payload
-            guarded = any(pol and isinstance(e, ast.Compare) and len(e.ops) == 1 and isinstance(e.ops[0], ast.In)
+            guarded = any(isinstance(e, ast.Compare) and len(e.ops) == 1
+                          and isinstance(e.ops[0], ast.In if pol else ast.NotIn)
                           and ap(e.comparators[0]) == pv and isinstance(e.left, ast.Constant) and e.left.value == key
                           for e, pol in facts(x, m.node))
             seen_keys[key] = seen_keys.get(key, 0) + 1
